@@ -80,6 +80,7 @@ struct Result {
 // running trace hash & shared counters (live in shared memory in batch mode)
 void trace(uint64_t v);                 // mix an event into the run's trace hash
 uint64_t trace_value();
+void note(const char *what);            // what the run is doing right now (survives a crash of the run; shown in the report)
 void stat_add(int idx, uint64_t n = 1); // per-world counter
 void stat_max(int idx, uint64_t v);
 
